@@ -643,6 +643,8 @@ def check_plate_transfer(src, dst, quantity, result, exc, op):
                 mech = 'C07:list_slices_elementwise:IndexError'
             elif list_slices and form == '1->N' and et == 'RuntimeError':
                 mech = 'C07:one_element_list_source:RuntimeError'
+            elif list_slices and form == 'N->1' and et == 'RuntimeError':
+                mech = 'C07:one_element_list_destination:RuntimeError'
             M.violate(['C07', 'C02'] if form == 'N->1' else ['C07'], 'WELLWISE', mech,
                       {'form': form, 'quantity': quantity, 'src': F.describe(src), 'dst': F.describe(dst),
                        'exc': repr(exc)[:300]})
